@@ -195,17 +195,18 @@ def run(case):
     ll, pm = _target(cube, desc)
     wkw = {} if desc == "wcs" else {"wcs": getattr(cube, desc)}
     reqs = case["reqs"]
+    reqs_impl = Q.np_ints(case["key"], list(reqs))        # integer axes as numpy integers in every fourth case
     why = []
     out = {"v": None, "h": None}
     exp_sel = _expected_selection(ll, pm, n, reqs)
     # ---- values form
     try:
-        v = cube.axis_world_coords_values(*reqs, pixel_corners=corners, **wkw)
+        v = cube.axis_world_coords_values(*reqs_impl, pixel_corners=corners, **wkw)
         vexc = None
     except Exception as e:  # noqa
         v, vexc = None, exc_name(e)
     try:
-        h = cube.axis_world_coords(*reqs, pixel_corners=corners, **wkw)
+        h = cube.axis_world_coords(*reqs_impl, pixel_corners=corners, **wkw)
         hexc = None
     except Exception as e:  # noqa
         h, hexc = None, exc_name(e)
